@@ -374,3 +374,75 @@ pub(crate) fn construct_reset_key(private_key: &[u8; 32]) -> ring::hmac::Key {
 
     ring::hmac::Key::new(ring::hmac::HMAC_SHA256, &reset_key)
 }
+
+#[cfg(feature = "verif-hooks")]
+pub(crate) mod verif_hooks {
+    //! Thin wrappers for the external verification harness; they only call the private functions above.
+    use super::*;
+
+    fn at(unix_seconds: u64) -> UnixTime {
+        UnixTime::since_unix_epoch(std::time::Duration::from_secs(unix_seconds))
+    }
+
+    fn chain(intermediates: &[Vec<u8>]) -> Vec<CertificateDer<'_>> {
+        intermediates
+            .iter()
+            .map(|der| CertificateDer::from(der.as_slice()))
+            .collect()
+    }
+
+    pub fn peer_id_from_certificate_der(der: &[u8]) -> Result<PeerId, String> {
+        peer_id_from_certificate(&CertificateDer::from(der)).map_err(|e| e.to_string())
+    }
+
+    /// `CertVerifier::verify_client_cert` (what a listener runs on the certificate of a dialer).
+    pub fn verify_client_cert(
+        server_names: Vec<String>,
+        end_entity: &[u8],
+        intermediates: &[Vec<u8>],
+        unix_seconds: u64,
+    ) -> Result<(), String> {
+        CertVerifier { server_names }
+            .verify_client_cert(
+                &CertificateDer::from(end_entity),
+                &chain(intermediates),
+                at(unix_seconds),
+            )
+            .map(|_| ())
+            .map_err(|e| e.to_string())
+    }
+
+    /// `CertVerifier::verify_server_cert`, or `ExpectedCertVerifier::verify_server_cert` when the
+    /// dial names the identity it expects.
+    pub fn verify_server_cert(
+        server_names: Vec<String>,
+        expected: Option<PeerId>,
+        end_entity: &[u8],
+        intermediates: &[Vec<u8>],
+        server_name: &str,
+        unix_seconds: u64,
+    ) -> Result<(), String> {
+        let server_name = ServerName::try_from(server_name).map_err(|e| e.to_string())?;
+        let end_entity = CertificateDer::from(end_entity);
+        let intermediates = chain(intermediates);
+        let verifier = CertVerifier { server_names };
+        match expected {
+            Some(peer_id) => ExpectedCertVerifier(verifier, peer_id).verify_server_cert(
+                &end_entity,
+                &intermediates,
+                &server_name,
+                &[],
+                at(unix_seconds),
+            ),
+            None => verifier.verify_server_cert(
+                &end_entity,
+                &intermediates,
+                &server_name,
+                &[],
+                at(unix_seconds),
+            ),
+        }
+        .map(|_| ())
+        .map_err(|e| e.to_string())
+    }
+}
